@@ -36,7 +36,34 @@ func shapes(tier string) []*tbin.Shape {
 	if tier == "thorough" {
 		all = append(all, tbin.Compose(tbin.T2(), false)...)
 	}
+	all = append(all, wideShapes...)
 	return all
+}
+
+// wideShapes: containers with more children than a machine word has bits (70 / 130 struct fields; lists, sets
+// and maps that are built with 70 elements whatever the size parameter says): bulk lookups of ALL children.
+var wideShapes = func() []*tbin.Shape {
+	mk := func(n int) *tbin.Shape {
+		var fs []tbin.SField
+		for i := 1; i <= n; i++ {
+			t := tbin.Sc(tbin.I32)
+			if i%7 == 0 {
+				t = tbin.Sc(tbin.STRING)
+			}
+			fs = append(fs, tbin.SF(int16(i), t))
+		}
+		return tbin.StructS(fs...)
+	}
+	return []*tbin.Shape{mk(70), mk(130), tbin.ListS(tbin.Sc(tbin.I32)), tbin.SetS(tbin.Sc(tbin.I64)), tbin.MapS(tbin.Sc(tbin.I32), tbin.Sc(tbin.I32)), tbin.MapS(tbin.Sc(tbin.STRING), tbin.Sc(tbin.I16))}
+}()
+
+func isWide(s *tbin.Shape) bool {
+	for _, w := range wideShapes {
+		if w == s {
+			return true
+		}
+	}
+	return false
 }
 
 const chunk = 8
@@ -132,6 +159,9 @@ func (check) Enumerate(tier string, seed int64, group int, yield func(core.Case)
 // variant 0: position-distinct values; 1: first field of every struct absent; 2: boundary scalars
 func build(s *tbin.Shape, n int, variant int) *tbin.Val {
 	g := &tbin.Gen{Boundary: variant == 2}
+	if isWide(s) && s.T != tbin.STRUCT && n > 0 {
+		n = 70
+	}
 	v := g.Build(s, n)
 	if variant == 1 {
 		dropFirst(v)
@@ -643,6 +673,9 @@ func (c *ctx) famMany() {
 			continue
 		}
 		ch := tutil.Children(p.V, p.S, c.buf)
+		if len(ch) > 8 {
+			c.manyAll(p, pn, ch)
+		}
 		if len(ch) > 3 {
 			ch = ch[:3]
 		}
@@ -743,6 +776,72 @@ func (c *ctx) famMany() {
 					}
 				})
 			}
+		}
+	}
+}
+
+// manyAll: one bulk lookup of ALL children of a wide container, in ascending, descending and interleaved
+// request order, through GetMany, the typed twin and GetTree.
+func (c *ctx) manyAll(p tutil.Pos, pn generic.Node, ch []tutil.Child) {
+	k := kindOf(p.V) + ",wide"
+	n := len(ch)
+	orders := map[string][]int{"ascending": nil, "descending": nil, "interleaved": nil}
+	for i := 0; i < n; i++ {
+		orders["ascending"] = append(orders["ascending"], i)
+		orders["descending"] = append(orders["descending"], n-1-i)
+		orders["interleaved"] = append(orders["interleaved"], (i*37)%n)
+	}
+	if n%37 == 0 {
+		delete(orders, "interleaved")
+	}
+	for _, on := range []string{"ascending", "descending", "interleaved"} {
+		sel := orders[on]
+		if sel == nil {
+			continue
+		}
+		for _, api := range []string{"GetMany", "typed", "GetTree"} {
+			api, sel := api, sel
+			name := "Node." + api
+			if api == "typed" {
+				name = map[tbin.Type]string{tbin.STRUCT: "Node.Fields", tbin.MAP: "Node.Gets", tbin.LIST: "Node.Indexes", tbin.SET: "Node.Indexes"}[p.V.T]
+			}
+			trig := fmt.Sprintf("%s,paths=all,%s", k, on)
+			c.guard(name, trig, func() {
+				pns := make([]generic.PathNode, len(sel))
+				for i, ci := range sel {
+					pns[i].Path = ch[ci].PE.Path()
+				}
+				opts := &generic.Options{}
+				var err error
+				switch api {
+				case "GetMany":
+					err = pn.GetMany(pns, opts)
+				case "GetTree":
+					tree := generic.PathNode{Next: pns}
+					err = pn.GetTree(&tree, opts)
+					pns = tree.Next
+				default:
+					switch p.V.T {
+					case tbin.STRUCT:
+						err = pn.Fields(pns, opts)
+					case tbin.MAP:
+						err = pn.Gets(pns, opts)
+					default:
+						err = pn.Indexes(pns, opts)
+					}
+				}
+				if err != nil {
+					c.viol(name, trig, "error", "%v", err)
+					return
+				}
+				for i, ci := range sel {
+					if pns[i].Node.IsEmpty() {
+						c.viol(name, trig, "present-not-returned", "request position %d (%s) of %d: empty node, want %s", i, ch[ci].PE, len(sel), ch[ci].V)
+						return
+					}
+					c.checkNode(name, trig, pns[i].Node, ch[ci].V)
+				}
+			})
 		}
 	}
 }
